@@ -116,8 +116,9 @@ func runC06(e *core.Env, n int, race bool) {
 		if toServer {
 			sc.Kind = pick(r, ClientStream, Bidi, ServerStream)
 			// the message is buffered, the sender scribbles over its object, only then the handler receives
+			// (the gate opens by itself after 60 ms in case the stream does not buffer at all)
 			sc.Sender = []Op{{Op: "send", Msg: m0}, {Op: "signal", Gate: "sent"}, {Op: "close"}}
-			sc.Handler = []Op{{Op: "gate", Gate: "sent"}, {Op: "recv"}}
+			sc.Handler = []Op{{Op: "gatesoft", Gate: "sent"}, {Op: "recv"}}
 			if sc.Kind != ServerStream {
 				sc.Handler = append(sc.Handler, Op{Op: "recvall"})
 			}
@@ -130,7 +131,7 @@ func runC06(e *core.Env, n int, race bool) {
 			sc.Kind = pick(r, ServerStream, Bidi)
 			sc.Sender = []Op{{Op: "send", Msg: genMsg(r, tag+"/req", false)}, {Op: "close"}}
 			sc.Handler = []Op{{Op: "recv"}, {Op: "send", Msg: m0}, {Op: "signal", Gate: "sent"}}
-			sc.Receiver = []Op{{Op: "gate", Gate: "sent"}, {Op: "recvall"}}
+			sc.Receiver = []Op{{Op: "gatesoft", Gate: "sent"}, {Op: "recvall"}}
 		}
 		run, ok, _ := execScript(c, sc, func(run *Run) { run.Carrier = "inproc/" + choices[ci].name })
 		if !ok {
@@ -254,7 +255,7 @@ func checkC06Dynamic(e *core.Env) {
 		dm := dynamic.NewMessage(md)
 		dm.SetFieldByName("payload", payload)
 		dm.SetFieldByName("count", int32(7))
-		sc := &Script{Kind: ClientStream, Handler: []Op{{Op: "gate", Gate: "sent"}, {Op: "recvall"}, {Op: "send", Msg: &tpb.Message{}}}}
+		sc := &Script{Kind: ClientStream, Handler: []Op{{Op: "gatesoft", Gate: "sent"}, {Op: "recvall"}, {Op: "send", Msg: &tpb.Message{}}}}
 		run := c.Svc.NewRun(sc, "inproc/dynamic")
 		defer c.Svc.Forget(run)
 		ctx, cancel := context.WithCancel(metadata.AppendToOutgoingContext(context.Background(), runKey, run.ID))
